@@ -169,8 +169,10 @@ def main():
             chk.violation("discrete_SIR|%s|%s" % (kind, cls), detail, {"scenario": rules[i], "reference": refs[i]})
     # ---- part 2: Reed-Frost / discrete SIS kernel, exact ------------------------------------
     pa, pb = 1, 2
+    settled = []
     for sis, sims in ((False, ["basic_discrete_SIR", "percolation_based_discrete_SIR"]), (True, ["basic_discrete_SIS"])):
-        for n in (3, 4):
+        # p = 1/2 on 3 and 4 nodes; a small p (1/16, below any "sparse" threshold an implementation might have) on 3 nodes
+        for n, pa, pb in ((3, 1, 2), (4, 1, 2), (3, 1, 16)):
             kres = emit_kernel(n, pa, pb, sis)
             chk.add_tlc("DiscreteEpi kernel N=%d p=%d/%d %s" % (n, pa, pb, "SIS" if sis else "SIR"), kres)
             if kres.violation:
@@ -203,6 +205,9 @@ def main():
                                     tasks.append({"sim": sim, "w": w, "st0": st0, "p": pa / pb, "full": full, "horizon": 2, "tmin": 3})
                             else:
                                 tasks.append({"sim": sim, "w": w, "st0": st0, "p": pa / pb, "full": full, "horizon": None, "tmin": 0})
+            for t in tasks:
+                # half of the scenarios start from a graph object that was simulated on before with another structure
+                t["primed"] = (sum(t["w"]) + t["st0"].count("I") + (1 if t["full"] else 0)) % 2 == 0
             done = common.pool_run(discrete_b1.run_scenario, tasks, lambda r: bool(r["problems"]))
             for t, r in done:
                 chk.cov["evaluations"] += r["leaves"]
@@ -210,24 +215,30 @@ def main():
                 if r["events"] > 0:
                     chk.cov["distinct_nontrivial"] += 1
                 chk.part(t["sim"], scenarios=1, leaves=r["leaves"])
+                if r.get("settled"):
+                    settled.append((t["sim"], r["settled"]))
                 for p in r["problems"]:
                     chk.violation("%s|%s|%s" % (t["sim"], p["kind"], "full-data" if t["full"] else "arrays"),
                                   p["detail"] + (" after steps %r" % (p["history"],) if "history" in p else ""),
                                   {"task": t, "problem": p})
             # percolate_network
             if not sis:
-                ptasks = [{"w": w, "p": pa / pb, "n": n} for w in itertools.product((0, 1), repeat=npairs)]
+                ptasks = [{"w": w, "p": pa / pb, "n": n, "primed": sum(w) % 2 == 1, "perc": [perc[(sum(w), k)] for k in range(sum(w) + 1)]}
+                          for w in itertools.product((0, 1), repeat=npairs)]
                 for t, r in zip(ptasks, pool_map(discrete_b1.percolate_scenario, ptasks)):
                     chk.cov["evaluations"] += r["leaves"]
                     for p in r["problems"]:
                         chk.violation("percolate_network|%s|" % p["kind"], p["detail"], {"task": t})
                     edges = [e for e, x in zip(pair_list(n), t["w"]) if x]
                     m = len(edges)
-                    for k in range(m + 1):
+                    if r.get("settled"):
+                        settled.append(("percolate_network", r["settled"]))
+                    for k in (range(m + 1) if r["dist"] is not None else ()):
                         for K in itertools.combinations(edges, k):
                             got = r["dist"].get(tuple(sorted(K)), 0.0)
                             if abs(got - perc[(m, k)]) > 1e-12:
                                 chk.violation("percolate_network|probability|", "kept set %r has probability %r, bond percolation gives %r" % (K, got, perc[(m, k)]), {"task": t})
+    pa, pb = 1, 2
     # directed contact networks: u infects v along an arc u -> v only (3 nodes, every digraph)
     for sis, sims in ((False, ["basic_discrete_SIR"]), (True, ["basic_discrete_SIS"])):
         kres = emit_kernel(3, pa, pb, sis, directed=True)
@@ -267,6 +278,15 @@ def main():
             "TLC checks generation loop = BFS and emits infection/recovery times, replayed in both return modes; part 2: TLC emits the exact Reed-Frost / discrete SIS transition matrix for every graph on N nodes "
             "(p=1/2) and the decision tree of basic_discrete_SIR, percolation_based_discrete_SIR, basic_discrete_SIS (full data: node-level kernel per generation; arrays: law of the numbers of new infections) "
             "and percolate_network (every kept-edge set) is enumerated under the scripted source and compared exactly; non-trivial = someone is infected by transmission")
+    if settled:
+        by = {}
+        for sim, why in settled:
+            by.setdefault(sim, [0, why])[0] += 1
+        for sim, (cnt, why) in sorted(by.items()):
+            chk.note("%s: the scripted random source cannot follow the implementation in %d scenario(s) (%s); their law was decided with %d seeded runs each of the "
+                     "real random source against the TLC-emitted chain (outcomes of probability 0 exactly, frequencies by a G-test rejected below %.0e)"
+                     % (sim, cnt, why, discrete_b1.SETTLE_RUNS, discrete_b1.SETTLE_P))
+        chk.assumptions.append("scenarios settled statistically (see notes) are not exact: G-test at 1e-9")
     return chk.finish(rule, exhaustive=False)
 
 
